@@ -2,6 +2,8 @@ use crate::engine::{CaseResult, Engine, Tier};
 use serde_json::Value;
 
 pub mod c07;
+pub mod c08;
+pub mod common;
 
 pub struct Prop {
     pub id: &'static str,
@@ -13,6 +15,7 @@ pub struct Prop {
 pub fn all() -> Vec<Prop> {
     vec![
         Prop { id: "C07", level: "exploration", run: c07::run, replay: c07::replay },
+        Prop { id: "C08", level: "exploration", run: c08::run, replay: c08::replay },
     ]
 }
 
@@ -30,5 +33,40 @@ pub fn run_property(id: &str, tier: Tier, seed: u64) -> i32 {
     };
     let mut eng = Engine::new(p.id, p.level, tier, seed);
     (p.run)(&mut eng);
+    run_pinned(&p, &mut eng);
     eng.finish()
+}
+
+/// every open known finding of the property: run its pinned minimal input without exclusions;
+/// it must still fail with the recorded symptom (KNOWN-FINDING line), a different failure is a
+/// violation, a pass is reported as "no longer reproduces".
+pub fn run_pinned(p: &Prop, eng: &mut Engine) {
+    let open: Vec<crate::engine::KnownFinding> = eng.known.iter().filter(|k| k.status == "open").cloned().collect();
+    for k in open {
+        if k.minimal_input.is_null() {
+            eng.known_finding_line(&k.key, true, "no pinned input recorded; signature-excluded only");
+            continue;
+        }
+        let doc = serde_json::to_string(&serde_json::json!({"property": p.id, "part": k.part, "case": k.minimal_input, "message": "pinned known finding"})).unwrap();
+        let _g = crate::watchdog::publish(p.id, doc, std::time::Duration::from_secs(120), false);
+        let r = crate::engine::caught(|| (p.replay)(&k.part, &k.minimal_input));
+        let msg = match r {
+            Ok(Some(Ok(_))) => {
+                eng.known_finding_line(&k.key, false, "the pinned input passes");
+                continue;
+            }
+            Ok(Some(Err(m))) => m,
+            Ok(None) => {
+                eng.note(format!("pinned input of {} could not be replayed (part {:?})", k.key, k.part));
+                continue;
+            }
+            Err(pm) => pm,
+        };
+        let matches = k.expect.is_empty() || k.expect.split('|').any(|alt| !alt.is_empty() && msg.contains(alt));
+        if matches {
+            eng.known_finding_line(&k.key, true, &crate::engine::truncate(&msg, 160));
+        } else {
+            eng.violation("pinned", &k.minimal_input, &format!("pinned input of known finding {} now fails differently: {}", k.key, msg));
+        }
+    }
 }
